@@ -5,6 +5,7 @@ import (
 	"bytes"
 	"compress/flate"
 	"fmt"
+	"io"
 	"testing"
 
 	"github.com/gobwas/ws"
@@ -13,6 +14,33 @@ import (
 
 	"verif/harness/hx"
 )
+
+// TestKnownFindings: dedicated probes of the defects this package has a signature for.
+func TestKnownFindings(t *testing.T) {
+	// (1) io.ByteReader source + a decompressor that reads through ReadByte
+	var b bytes.Buffer
+	fw, _ := flate.NewWriter(&b, 6)
+	fw.Write([]byte("Hello"))
+	fw.Flush()
+	comp := b.Bytes()[:b.Len()-4]
+	rd := wsflate.NewReader(bytes.NewReader(comp), dtorFor(3))
+	p, err := io.ReadAll(rd)
+	hx.Probe(t, sigReadByteEOF,
+		fmt.Sprintf("wsflate.Reader over a bytes.Reader holding %x (\"Hello\", sync-flushed, tail stripped) with a decompressor that reads through the offered ReadByte: got %q, %v; want \"Hello\", nil (suffixedReader.ReadByte returns (0, nil) at the source's EOF, a byte that is not in the stream)", comp, p, err),
+		err != nil || string(p) != "Hello", map[string]interface{}{"compressed_hex": fmt.Sprintf("%x", comp), "source": "bytes.Reader", "decompressor": "compress/flate fed through ReadByte only"})
+
+	// (2) CompressFrame on a final control / continuation frame
+	ping := ws.NewPingFrame([]byte("ping payload"))
+	cf, cerr := wsflate.CompressFrame(ping)
+	present := false
+	if cerr == nil {
+		back, derr := wsflate.DecompressFrame(cf)
+		present = derr != nil || !bytes.Equal(back.Payload, ping.Payload) || back.Header != ping.Header
+	}
+	hx.Probe(t, sigHelperNonData,
+		fmt.Sprintf("CompressFrame(final ping, payload %q) returns no error and a frame rsv=%d whose payload is DEFLATE data %x; DecompressFrame hands that back as is: the frame does not survive compress+decompress and is not refused", ping.Payload, cf.Header.Rsv, cf.Payload),
+		present, map[string]interface{}{"frame": "final ping, 12-byte payload", "api": "wsflate.CompressFrame then DecompressFrame"})
+}
 
 func TestFrameHelpersHeaders(t *testing.T) {
 	hx.Check(t, 2, func(t *rapid.T) {
@@ -82,17 +110,27 @@ func TestFrameHelpersHeaders(t *testing.T) {
 				t.Fatalf("%s(%s): payload ++ 0000ffff does not inflate to the input: %v", name, hdrString(in.Header), ierr)
 			}
 		default:
-			// continuation / control / reserved opcodes: outside the helpers' domain — open,
-			// except that a result marked compressed must be compressed and RSV2/3 stay
-			hx.Class("open/compress-helper-on-non-data-opcode")
-			if err == nil && cf.Header.Rsv&0x4 != 0 {
-				if got, ierr := inflateLoose(cf.Payload); ierr != nil || !bytes.Equal(got, payload) {
-					t.Fatalf("%s(%s) returned a frame with RSV1 whose payload does not inflate to the input: %v", name, hdrString(in.Header), ierr)
-				}
+			// continuation / control / reserved opcodes: "compress and decompress a frame to the same
+			// header and payload" — the helper may refuse the frame, otherwise the pair must give it back
+			if err != nil {
+				hx.Class("headers/compress-non-data=refused")
+				break
 			}
-			if err == nil && cf.Header.Rsv&0x3 != rsv&0x3 {
+			if hx.Known(sigHelperNonData) && cf.Header.Rsv&0x4 == 0 {
+				hx.Exclude(sigHelperNonData)
+				break
+			}
+			if cf.Header.Rsv&0x3 != rsv&0x3 {
 				t.Fatalf("%s(%s) changed RSV2/RSV3: %s", name, hdrString(in.Header), hdrString(cf.Header))
 			}
+			back, derr := wsflate.DecompressFrame(cf)
+			wantH := in.Header
+			wantH.Rsv &^= 0x4
+			if derr != nil || back.Header != wantH || !bytes.Equal(back.Payload, payload) {
+				t.Fatalf("%s(%s, payload %s) returned no error and %s with payload %s; DecompressFrame of that gives %s payload %s err %v — the frame does not survive compress+decompress",
+					name, hdrString(in.Header), short(payload), hdrString(cf.Header), short(cf.Payload), hdrString(back.Header), short(back.Payload), derr)
+			}
+			hx.Class("headers/compress-non-data=round-trips")
 		}
 
 		// ---- decompress: the payload is a compressed message when RSV1 says so, plain bytes otherwise
@@ -127,15 +165,18 @@ func TestFrameHelpersHeaders(t *testing.T) {
 			if err == nil {
 				t.Fatalf("%s accepted a non-final frame %s", name, hdrString(din.Header))
 			}
-		case kind == "reserved":
-			hx.Class("open/decompress-helper-on-reserved-opcode")
 		case !had:
 			if err != nil || df.Header != din.Header || !bytes.Equal(df.Payload, body) {
 				t.Fatalf("%s of a frame without RSV1 (%s): got %s, %d payload bytes, err %v; want it back untouched", name, hdrString(din.Header), hdrString(df.Header), len(df.Payload), err)
 			}
-		case kind == "cont/ctl":
+		case kind == "cont/ctl" || (kind == "reserved" && op.IsControl()):
 			if err == nil {
 				t.Fatalf("%s accepted RSV1 on a continuation/control frame %s", name, hdrString(din.Header))
+			}
+		case kind == "reserved":
+			// reserved non-control opcode marked compressed: refuse it or decompress it correctly
+			if err == nil && (!bytes.Equal(df.Payload, payload) || df.Header.Rsv != rsv&^0x4) {
+				t.Fatalf("%s(%s) returned no error and %s with %d payload bytes for the %d-byte message", name, hdrString(din.Header), hdrString(df.Header), len(df.Payload), len(payload))
 			}
 		default:
 			want := din.Header
